@@ -1,5 +1,6 @@
 """Translator for ConcurrentExecutionQueue (C16): atomic skeletons of the `_events` counter protocol
-with their memory orders, the constants of that protocol, the template flags of the two queue
+with their memory orders, the whitespace-free source text of every modelled function (`src_*`, pinned by
+`gen_src_*` obligations), the constants of that protocol, the template flags of the two queue
 calls, and the slot layout the harness / driver use to read the queue's trace lines
 -> lean/Babylon/Gen/ExecQ.lean"""
 from .common import *
@@ -18,6 +19,15 @@ def _bool_def(name, b):
     return "def %s : Bool := %s" % (name, "true" if b else "false")
 
 
+def _norm(body):
+    """whitespace-free, comment-free text of a function body"""
+    return re.sub(r"\s+", "", strip_comments(body))
+
+
+def _str_def(name, text):
+    return 'def %s : String := "%s"' % (name, text.replace("\\", "\\\\").replace('"', '\\"'))
+
+
 def _site_ord(site, k=0):
     """k-th memory order written in a Site term produced by `skeleton`"""
     return re.findall(r"\.(rlx|cns|acqrel|acq|rel|sc)\b", site)[k]
@@ -33,6 +43,16 @@ def generate():
     sk_start = skeleton(fn("start_consumer"), [r"submit"])
     sk_cons = skeleton(fn("consume_until_empty"), [r"try_pop_n", r"size", r"yield", r"usleep"])
     sk_join = skeleton(fn("join"), [r"usleep", r"yield", r"size"])
+    # full normalised text of every modelled function: any edit (an extra exit path, a bounded spin, a
+    # changed condition) breaks the `gen_src_*` obligation that pins it in Properties/C16.lean
+    items.append(_str_def("src_execute_move", _norm(fn("execute"))))
+    items.append(_str_def("src_execute_copy", _norm(function_body(txt, r"ConcurrentExecutionQueue<T, S>::execute\s*\(", 1))))
+    items.append(_str_def("src_signal_push_event", _norm(fn("signal_push_event"))))
+    items.append(_str_def("src_start_consumer", _norm(fn("start_consumer"))))
+    items.append(_str_def("src_consume_until_empty", _norm(fn("consume_until_empty"))))
+    items.append(_str_def("src_join", _norm(fn("join"))))
+    bq = resolve_ifs("babylon/concurrent/bounded_queue.hpp")
+    items.append(_str_def("src_queue_size", _norm(function_body(bq, r"ConcurrentBoundedQueue<T, S>::size\s*\("))))
     items.append(skel_def("skel_execute_move", sk_exec0))
     items.append(skel_def("skel_execute_copy", sk_exec1))
     items.append(skel_def("skel_signal_push_event", sk_signal))
